@@ -8,6 +8,7 @@ import (
 	"errors"
 	"fmt"
 	"io"
+	"math"
 	"net/http"
 	"net/http/httptest"
 	"net/url"
@@ -140,7 +141,7 @@ func runClientBody(body []byte, abrupt bool) (msgs [][]byte, fin int64, panicked
 			panicked = p
 		}
 	}()
-	cs, err := ch.NewStream(context.Background(), hx.StreamDescOf("BD"), "/verif.Svc/BD")
+	cs, err := ch.NewStream(context.Background(), hx.StreamDescOf("BD"), "/verif.Svc/BD", clientCallOpts...)
 	if err != nil {
 		return nil, finClass(err), nil
 	}
@@ -158,6 +159,9 @@ func runClientBody(body []byte, abrupt bool) (msgs [][]byte, fin int64, panicked
 		}
 	}
 }
+
+// call options for runClientBody (the per-call size options must not loosen the fixed per-message limit)
+var clientCallOpts []grpc.CallOption
 
 // runClientSingle: the client of a single-response method receives once
 func runClientSingle(body []byte, abrupt bool) (ok bool, msg []byte, panicked interface{}) {
@@ -328,6 +332,19 @@ func runC07(o *hx.Out, r *hx.Rand, thorough bool) {
 		{0x00, 0x00, 0x00, 0x05, 1, 2},       // short payload
 		{0x7f, 0xff, 0xff, 0xff, 1, 2, 3, 4}, // big prefix with a little data
 		{0x80, 0x00, 0x00, 0x00, 9, 9, 9},
+	}
+	// the same prefixes with per-call size limits far above the fixed limit: nothing may change (the
+	// fixed limit bounds what is allocated on the strength of an unverified prefix, whatever the call asks)
+	for _, opts := range [][]grpc.CallOption{
+		{grpc.MaxCallRecvMsgSize(math.MaxInt32)},
+		{grpc.MaxCallRecvMsgSize(1 << 30), grpc.MaxCallSendMsgSize(math.MaxInt32)},
+	} {
+		clientCallOpts = opts
+		for _, b := range hostile {
+			cli("hostile_prefix_with_call_size_options", b, false, false)
+		}
+		cli("hostile_prefix_with_call_size_options", []byte{0x10, 0x00, 0x00, 0x00, 1, 2, 3, 4, 5, 6, 7, 8, 9, 10, 11, 12}, true, false)
+		clientCallOpts = nil
 	}
 	for _, b := range hostile {
 		for _, ab := range []bool{false, true} {
